@@ -209,6 +209,25 @@ def run(fx, rep, tier):
     for o in sub.obls:
         o["rule"] = "C03-R7"
         rep.obls.append(o)
+    rep.rule("C03-R8", "a prefix word is exactly its power of ten and a unit word its standard factor: the generated parser adds "
+                       "the SI exponent of the prefix it read (per spelling, = data.toml = the SI table) and every unit's scale "
+                       "equals the reference table (shared with C05-R1 and C05-R2)")
+    sub = type(rep)(rep.prop, rep.tier)
+    c05.r1_generated(facts, sub)
+    c05.r2_tables(facts, sub)
+    for o in sub.obls:
+        if o["rule"] in ("C05-R1", "C05-R2"):
+            o["key"] = o["rule"] + ":" + o["key"]
+            o["rule"] = "C03-R8"
+            rep.obls.append(o)
+    rep.rule("C03-R9", "only commensurable units convert: Compound::factor compares the two base-dimension maps completely "
+                       "(shared with C02-R6)")
+    from . import c02
+    sub = type(rep)(rep.prop, rep.tier)
+    c02.r6_factor(facts, sub)
+    for o in sub.obls:
+        o["rule"] = "C03-R9"
+        rep.obls.append(o)
     if "rel" in fx:
         sub = type(rep)(rep.prop, rep.tier)
         r2_r3_factor(fx["rel"], sub, "quick")
